@@ -358,7 +358,7 @@ class FnTranslator:
         if not ret:
             raise Untranslatable("function does not return")
         lean = fs["lean"]
-        txt = f"/-- translated from `{self.mod.path.name}:{self.fn.lineno} {self.qual}` -/\n"
+        txt = f"/-- translated from `{self.mod.path.name}` `{self.qual}` -/\n"
         txt += f"def {lean} {' '.join(sig)} : Py.M {fs['ret']} := do\n" + "\n".join(body) + "\n"
         return txt, {"lean": "Tr." + lean if False else lean, "param_types": ptypes, "required": len(params) - len(defaults)}
 
